@@ -1,18 +1,21 @@
 #!/usr/bin/env python3
 """mkmut.py NAME FILE OLD NEW [FILE OLD NEW ...] -> writes /verif/mutants/NAME.diff
 Builds a unified diff against /repo's working tree by exact string replacement
-(OLD must occur exactly once in FILE). /repo itself is not touched."""
-import sys, difflib, os
+(OLD must occur exactly once in FILE; several edits of one FILE accumulate).
+/repo itself is not touched."""
+import sys, difflib, os, collections
 name = sys.argv[1]
 args = sys.argv[2:]
-out = []
+assert len(args) % 3 == 0, "need FILE OLD NEW triples"
+orig, cur = {}, collections.OrderedDict()
 for i in range(0, len(args), 3):
     f, old, new = args[i], args[i+1], args[i+2]
-    old = old.encode().decode('unicode_escape') if '\\n' in old or '\\t' in old else old
-    new = new.encode().decode('unicode_escape') if '\\n' in new or '\\t' in new else new
-    s = open(os.path.join('/repo', f)).read()
-    assert s.count(old) == 1, (f, old, s.count(old))
-    t = s.replace(old, new)
-    out += list(difflib.unified_diff(s.splitlines(True), t.splitlines(True), 'a/'+f, 'b/'+f))
+    if f not in cur:
+        orig[f] = cur[f] = open(os.path.join('/repo', f)).read()
+    assert cur[f].count(old) == 1, (f, old, cur[f].count(old))
+    cur[f] = cur[f].replace(old, new)
+out = []
+for f in cur:
+    out += list(difflib.unified_diff(orig[f].splitlines(True), cur[f].splitlines(True), 'a/'+f, 'b/'+f))
 open('/verif/mutants/%s.diff' % name, 'w').write(''.join(out))
 print('wrote', name, len(out), 'lines')
